@@ -149,21 +149,21 @@ Definition observe (k : coll) : option obsrec :=
   match k with
   | CFub f => let n := fub_len f in
       Some {| ob_len := Some n; ob_empty := Some (Nat.eqb n 0); ob_cap := Some (fub_cap f);
-              ob_hint := Some (n, Some n); ob_term := Some (Nat.eqb n 0) |}
-  | CMb f => Some {| ob_len := None; ob_empty := None; ob_cap := None; ob_hint := Some (0, None); ob_term := None |}
+              ob_hint := Some (N.of_nat n, Some (N.of_nat n)); ob_term := Some (Nat.eqb n 0) |}
+  | CMb f => Some {| ob_len := None; ob_empty := None; ob_cap := None; ob_hint := Some (0%N, None); ob_term := None |}
   | CFu u => let n := rem u in
       Some {| ob_len := Some n; ob_empty := Some (Nat.eqb n 0); ob_cap := Some (fu_capacity u);
-              ob_hint := Some (n, Some n); ob_term := Some (Nat.eqb n 0) |}
+              ob_hint := Some (N.of_nat n, Some (N.of_nat n)); ob_term := Some (Nat.eqb n 0) |}
   | CMu u => let n := fu_len_sum u in
       Some {| ob_len := Some n; ob_empty := Some (forallb (fun g => Nat.eqb (fub_len g) 0) (groups u));
-              ob_cap := None; ob_hint := Some (0, None); ob_term := None |}
+              ob_cap := None; ob_hint := Some (0%N, None); ob_term := None |}
   | CFob q => let n := fob_len q in
       let e := Nat.eqb (fub_len (fo_inner q)) 0 && Nat.eqb (length (oheap (fo_ord q))) 0 in
-      Some {| ob_len := Some n; ob_empty := Some e; ob_cap := None; ob_hint := Some (n, Some n); ob_term := Some e |}
+      Some {| ob_len := Some n; ob_empty := Some e; ob_cap := None; ob_hint := Some (N.of_nat n, Some (N.of_nat n)); ob_term := Some e |}
   | CFo q => let n := fo_len q in
       let e := Nat.eqb (rem (fu_inner q)) 0 && Nat.eqb (length (oheap (fu_ord q))) 0 in
-      Some {| ob_len := Some n; ob_empty := Some e; ob_cap := None; ob_hint := Some (n, Some n); ob_term := Some e |}
-  | CAd a => Some {| ob_len := None; ob_empty := None; ob_cap := None; ob_hint := Some (adapter_hint a); ob_term := None |}
+      Some {| ob_len := Some n; ob_empty := Some e; ob_cap := None; ob_hint := Some (N.of_nat n, Some (N.of_nat n)); ob_term := Some e |}
+  | CAd a => Some {| ob_len := None; ob_empty := None; ob_cap := None; ob_hint := Some (adapter_hint P a); ob_term := None |}
   | CFec a => Some {| ob_len := None; ob_empty := None; ob_cap := None; ob_hint := None;
                       ob_term := Some (match fe_up a with None => Nat.eqb (fub_len (fe_q a)) 0 | Some _ => false end) |}
   | CJoin _ => Some obs_none
